@@ -7,7 +7,7 @@ func vh_C14_GenerateKey() {
 	vCutSign()
 	pub, priv, err := GenerateKey(vReader("entropy"))
 	vReach("GenerateKey returned")
-	vAssert(vReaderCalls() == 1 && vReaderCallSize(0) == 32, "exactly one io.ReadFull of 32 bytes, no other read")
+	vAssert(vReaderCalls() == 1 && vReaderCallSize(0) == 32 && vReaderCallIsReadFull(0), "exactly one io.ReadFull of 32 bytes (a bare Read may deliver fewer), no other read")
 	if vReaderFailed(0) {
 		vAssert(!vIsNilErr(err) && pub == nil && priv == nil, "reader error => (nil, nil, err)")
 	} else {
